@@ -173,9 +173,9 @@ deriving Repr, DecidableEq
 def apiStep (cfg : Cfg) (st : St) (o : Op) : St × Option Bool :=
   match o.kind with
   | .inc => (incChain st (chain cfg o.q) o.r o.t o.h, none)
-  | .allowed => let (s, b) := allowedChain st (chain cfg o.q) o.r o.h; (s, some b)
+  | .allowed => ((allowedChain st (chain cfg o.q) o.r o.h).1, some (allowedChain st (chain cfg o.q) o.r o.h).2)
   | .dec => (decChain st (chain cfg o.q) o.r o.h, none)
-  | .req => let (s, b) := limiter cfg st o.q o.r o.t o.h; (s, some b)
+  | .req => ((limiter cfg st o.q o.r o.t o.h).1, some (limiter cfg st o.q o.r o.t o.h).2)
 
 /-- Run a sequence of API calls from the initial state; answers oldest first. -/
 def apiRun (cfg : Cfg) : St → List Op → List (Option Bool)
